@@ -676,7 +676,16 @@ func genVals(t *rapid.T, n int, enc string, forceRuns bool) ([]Hex, string) {
 		base &= 0xff
 	}
 	w := s.width
+	// most value lists differ in their low bytes; now and then the difference
+	// sits in one higher byte only (offsets that are a multiple of 2^k apart)
+	vshift := uint(0)
+	if rapid.IntRange(0, 4).Draw(t, "vshift?") == 0 {
+		vshift = uint(8 * rapid.IntRange(1, 7).Draw(t, "vshift"))
+	}
 	payload := func(id uint64) Hex {
+		if vshift > 0 {
+			id = base&((1<<vshift)-1) | (id-base)<<vshift
+		}
 		switch {
 		case s.name == "String16":
 			// distinct strings of various lengths, including "" for id 0
